@@ -32,6 +32,11 @@ func genReopen(r *Rand, d *dFile) *dFile {
 				for k := 0; k < 1+r.Intn(2); k++ {
 					nt.Fields = append(nt.Fields, dField{Name: fmt.Sprintf("g%d", k), Ty: dType{Prim: "string", RefApp: []string{}, RefPath: []string{}}, Attrs: dAttrs{Tags: []string{}, KV: []dKV{}}})
 				}
+				// a field of the first declaration declared again, now as a collection
+				if len(t.Fields) > 0 && r.Chance(1, 2) {
+					f0 := t.Fields[r.Intn(len(t.Fields))]
+					nt.Fields = append(nt.Fields, dField{Name: f0.Name, Ty: dType{Wrap: Pick(r, []string{"set", "seq"}), Prim: "string", RefApp: []string{}, RefPath: []string{}}, Attrs: dAttrs{Tags: []string{}, KV: []dKV{}}})
+				}
 				na.Types = append(na.Types, nt)
 			}
 		}
@@ -44,6 +49,12 @@ func genReopen(r *Rand, d *dFile) *dFile {
 				ss := g.stmts(a.Parts, 1, 1+r.Intn(3))
 				if ss[0].doc != nil { // a doc-string opening a re-opened body would join one that closes the first body
 					ss[0] = dStmt{K: "action", T: "resume"}
+				}
+				if r.Chance(1, 3) {
+					// declared again with annotation lines only: no statement is added
+					na.Eps = append(na.Eps, dEp{Name: e.Name, Params: []dParam{}, Stmts: []dStmt{},
+						Attrs: dAttrs{Tags: []string{}, KV: []dKV{{K: "reopened", V: dAttrVal{S: "yes"}}}}})
+					continue
 				}
 				na.Eps = append(na.Eps, dEp{Name: e.Name, Params: []dParam{}, Attrs: dAttrs{Tags: []string{}, KV: []dKV{}}, Stmts: ss})
 			}
@@ -58,6 +69,8 @@ func genReopen(r *Rand, d *dFile) *dFile {
 	}
 	return out
 }
+
+var c08NoLeadingFiller bool
 
 func init() { runners["C08"] = runC08 }
 
@@ -80,8 +93,13 @@ func runC08(res *Result, tier string, rnd *Rand, replay string) {
 		base := map[string]int{}
 		two := r.Chance(1, 2)
 		header := ""
+		emptyOnly := two && r.Bool()
 		if two {
 			header = "import part2\n"
+			if emptyOnly {
+				// a file that holds nothing but an application without a body, walked just before part2
+				header = "import emptyonly\nimport part2\n"
+			}
 			if r.Bool() {
 				header += "\n"
 			}
@@ -89,8 +107,21 @@ func runC08(res *Result, tier string, rnd *Rand, replay string) {
 		files := map[string]string{}
 		files["main.sysl"] = renderDFileMarked(d, r.Fork(), "main.sysl", &marks, base, header)
 		if two {
+			// the root file may end with an application that has no body, and the next file may
+			// start with its first application on the very first line
+			if r.Bool() {
+				t := files["main.sysl"]
+				marks = append(marks, c08Mark{Path: `apps["EmptyTail"]`, File: "main.sysl", Line: strings.Count(t, "\n"), Col: 0, Tok: "EmptyTail"})
+				files["main.sysl"] = t + "EmptyTail:\n    ...\n"
+			}
+			if emptyOnly {
+				files["emptyonly.sysl"] = "EmptyOnly:\n    ...\n"
+				marks = append(marks, c08Mark{Path: `apps["EmptyOnly"]`, File: "emptyonly.sysl", Line: 0, Col: 0, Tok: "EmptyOnly"})
+			}
 			d2 := genReopen(r.Fork(), d)
+			c08NoLeadingFiller = r.Bool()
 			files["part2.sysl"] = renderDFileMarked(d2, r.Fork(), "part2.sysl", &marks, base, "")
+			c08NoLeadingFiller = false
 		}
 		in := map[string]any{"files": files}
 		var locs map[string][]srcLoc
